@@ -44,7 +44,7 @@ Lit(k) == CASE k = "n" -> <<117, 108, 108>>          \* "ull"
 (*          NC   name or '}'                      COL ':'                  *)
 (*          SEP  ',' or the closer                                         *)
 (*  fr    the innermost open frame [t, names, n]: t is "t" (top level),    *)
-(*        "o" or "a"; n counts the names and values seen in the frame      *)
+(*        "o" or "a"; n counts the names and values started in the frame   *)
 (*  stack the enclosing frames, outermost first (so Depth = Len(stack));   *)
 (*        kept apart from fr so that a step inside a container does not    *)
 (*        touch the (possibly 10000 long) sequence                         *)
@@ -145,7 +145,7 @@ StartValue(o, s, b) ==
     ELSE IF b \in {123, 91} THEN
          IF Len(s.stack) >= o.maxd THEN Dead(s1, "depth")
          ELSE [Emit(s1, IF b = 123 THEN "{" ELSE "[", <<>>)
-                 EXCEPT !.stack = Append(@, s.fr),
+                 EXCEPT !.stack = Append(@, [s.fr EXCEPT !.n = @ + 1]),   \* counted when it starts
                         !.fr = [t |-> IF b = 123 THEN "o" ELSE "a", names |-> {}, n |-> 0],
                         !.ex = IF b = 123 THEN "NC" ELSE "VC"]
     ELSE Dead(s1, "value")
@@ -154,9 +154,10 @@ Close(o, s, b) ==
     LET f == s.fr
         s1 == [s EXCEPT !.ts = s.at - 1] IN
     IF (b = 125 /\ f.t = "o") \/ (b = 93 /\ f.t = "a")
-    THEN ValueDone([Emit(s1, IF b = 125 THEN "}" ELSE "]", <<>>)
-                       EXCEPT !.stack = SubSeq(@, 1, Len(@) - 1),
-                              !.fr = s.stack[Len(s.stack)]])
+    THEN [Emit(s1, IF b = 125 THEN "}" ELSE "]", <<>>)
+             EXCEPT !.stack = SubSeq(@, 1, Len(@) - 1),
+                    !.fr = s.stack[Len(s.stack)],
+                    !.ex = IF Len(s.stack) = 1 THEN "TOP" ELSE "SEP"]
     ELSE Dead(s1, "mismatch")
 
 \* Byte b between tokens.
